@@ -21,8 +21,8 @@ FUNCTIONS = ["distance3d.hydroelastic_contact.contact_forces", "find_contact_sur
              "aabb_tree.all_aabbs_overlap / AabbTree", "tetrahedral_mesh_aabbs / center_of_mass_tetrahedral_mesh / tetrahedral_mesh_volumes",
              "and everything listed under C15 for the pair intersection"]
 STUBS = ["np.linalg.pinv / solve -> exact inverse (adjugate)", "open3d -> stub module", "np.arctan2 -> ordering-only Angle"]
-OUTSIDE = ["bodies from the make_* factories and the 5 % discretisation clause (whole-program: thousands of tetrahedron pairs)", "rounding"]
-BOUNDS = {"quick": "wrench algebra: <=2 contacts with fully symbolic centre/force (12 reals) + symbolic frame translation at 4 signed-permutation rotations; pipeline: micro-bodies of 1-2 tetrahedra, body 2 at a rational rotated pose, body 1 translated along a line (1 real)",
+OUTSIDE = ["intersection flag where the bodies merely touch (contact area <= 1e-9): reported as its own obligation class, known finding K07", "bodies from the make_* factories and the 5 % discretisation clause (whole-program: thousands of tetrahedron pairs)", "rounding"]
+BOUNDS = {"quick": "wrench algebra: <=2 contacts with fully symbolic centre/force (12 reals) + symbolic frame translation at 4 signed-permutation rotations; pipeline: micro-bodies of 1-2 tetrahedra, body 2 at a rational rotated pose, body 1 translated along a line (1 real, |t| <= 2); histories: (b1,b2),(b2,b1),move b2 in place,(b1,b2) against fresh bodies, and the three-body history (b1,b2),(b2,b3 in a signed-permutation frame),move,(b1,b2) on |t| <= 0.3",
           "thorough": "more poses, common rigid motions, all rotations for the algebra"}
 WALL_BUDGET = {"quick": 300, "thorough": 600}
 EXPECTED_EXCEPTIONS = ()
@@ -182,10 +182,12 @@ class MicroPipeline(Scenario):
             # IN PLACE (as the library's own examples do), then (b1,b2) again; must equal fresh bodies at the final poses
             hit1, w12_1, w21_1 = H.contact_forces(b1, b2)
             com_before = b1.com
-            H.contact_forces(b2, b1)
-            # ... and against a third body in a genuinely different frame: b2 is re-expressed there
+            if not self.args.get("third"):
+                H.contact_forces(b2, b1)
+            # ... or against a third body in a genuinely different frame: b2 is re-expressed there (the three-body
+            # history leaves out the swapped call to fit more paths into the budget)
             if self.args.get("third"):
-                b3 = micro_body(H, cx, self.args["a"], (PR.RX51213, [0.5, 0.25, -0.25]), 1.0)
+                b3 = micro_body(H, cx, self.args["a"], (R0[7], [0.5, 0.25, -0.25]), 1.0)
                 H.contact_forces(b2, b3)
             v = self.args.get("move", [0.0, 0.0, 0.0625])
             b2.body2origin_[:3, 3] += cx.arr(v)
@@ -302,7 +304,8 @@ def jobs(tier, seed):
             J.append({"family": "forces", "args": dict(base, mode="forces")})
             if si == 0 or tier != "quick":
                 J.append({"family": "history", "args": dict(base, mode="history")})
-                J.append({"family": "history3", "args": dict(base, mode="history", third=True)})
+                # narrow sweep: the bodies overlap for all |t| <= 0.3, so every explored path exercises a contact
+                J.append({"family": "history3", "args": dict(base, sweep=dict(sw, range=0.3), mode="history", third=True)})
             J.append({"family": "broad_phase", "args": dict(base, mode="broad")})
             if tier != "quick" or (pi + si) % 4 == 0:
                 J.append({"family": "common_motion", "args": dict(base, mode="motion", rc=7, tc=[0.5, -1.0, 2.0])})
